@@ -24,13 +24,16 @@
     after_preserves_wellnested unwrap_preserves_wellnested empty_preserves_wellnested
     prepend_preserves_wellnested append_preserves_wellnested rename_preserves_wellnested
     attr_preserves_wellnested cut_preserves_wellnested map_preserves_wellnested
-    chain_wellnested_partial invert_wrap_breaks_nesting attr_wrap_emits_empty_wrapper
+    chain_wellnested_partial buffers_balanced before_after_any_stream
+    invert_wrap_breaks_nesting attr_wrap_emits_empty_wrapper
+    select_only_id_ok filler_unnamed_unchanged
     filler_empty_id filler_only_value_attrs_partial filler_no_text_change_partial
     filler_wellnested_partial filler_fills_given_partial filler_checks_given filler_selects_given
     filler_fills_textarea_partial filler_no_passwords
     filler_option_children_moved filler_textarea_none_erased
 -/
 import Genshi.Lemmas.TfSegs
+import Genshi.Lemmas.TfChains
 import Genshi.Lemmas.TfFill
 namespace Genshi.Props.C20
 open Genshi Genshi.Tf
@@ -49,6 +52,12 @@ example : unmark (selectGo 0 [.none, .hit, .none]
       .end_ ⟨[], ['r']⟩])) =
     [.start ⟨[], ['r']⟩ [], .start ⟨[], ['a']⟩ [], .text ['t'] false, .end_ ⟨[], ['a']⟩,
       .end_ ⟨[], ['r']⟩] := by decide
+
+/-- The same for the results the driver certifies on every run (`selOk`: the results fit the
+    events they were given for). -/
+theorem select_only_id_ok (rs : List Res) (s : Stream) (h : selOk 0 rs (markAll s) = true) :
+    unmark (selectGo 0 rs (markAll s)) = s := by
+  rw [unmark_selectGo_ok 0 rs (markAll s) h, unmark_markAll]
 
 /-- `select_marks_wf`: on a well-nested stream, for *any* admissible per-event match
     results, the marking a select produces is `Good` (ENTER/INSIDE/EXIT bracket whole
@@ -223,26 +232,46 @@ theorem map_preserves_wellnested (all : Bool) (p r : Str) (n : Nat) (s : MStream
 /-
   Full statement (kept visible): for every well-nested stream `s` and every chain `ops` of
   Transformer operations in which, after an `invert()`, a `select()`/`end()` comes before any
-  operation that acts on contiguous selections, `transform ops s = some out → WellNested out`.
+  operation that deletes, replaces, wraps or copies contiguous selections,
+  `transform ops s = some out → WellNested out`.
 
-  Proved part (`_partial`): the same for chains that
-    * do not use `filter(f)` (an arbitrary user filter; the model drives two instances),
-    * inject literal content only (strings, event streams that are balanced) — content taken
-      from a `StreamBuffer` filled earlier in the same chain is not covered,
-    * after `invert()` use only select / end / invert / buffer / attr / map / substitute until
-      the next select or end (before/after/prepend/append/rename/copy/unwrap/empty are also
-      harmless there but are not in the proved class).
-  The chain may contain any number of selects, `end()`, `buffer()`, `copy`, `cut`, wrap,
-  replace, before, after, prepend, append, rename, attr, empty, unwrap, remove, map,
-  substitute in any order.
+  Proved part (`_partial`): exactly that, for chains without `filter(f)` (an arbitrary user
+  filter; the model drives two instances) and with balanced literal event streams as content.
+  The chain may contain any number of selects, `end()`, `invert()`, `buffer()`, `copy`, `cut`,
+  wrap, replace, before, after, prepend, append, rename, attr, empty, unwrap, remove, map,
+  substitute in any order, and may inject strings, event streams and the buffers filled by
+  earlier `copy`/`cut` operations of the same chain.  After `invert()` and until the next
+  select/end: everything except remove / replace / wrap / cut / copy / filter.
+  (The model composes the chain stage-wise; the driver answers `unmodelled` for the chains in
+  which the lazy interleaving of the real generators is observable.)
 -/
 theorem chain_wellnested_partial (ops : List Op) (s : Stream) (hs : WellNested s)
     (hadm : Admissible true ops) (hsel : chainSelOk ops [] (markAll s) = true)
     (out : Stream) (h : transform ops s = some out) : WellNested out := by
   simp only [transform, transformMarked, Option.map_eq_some_iff] at h
   obtain ⟨⟨o, b⟩, hr, rfl⟩ := h
-  exact runChain_wellnested ops true [] (markAll s) hadm (by rw [unmark_markAll]; exact hs)
-    (fun _ => markAll_good hs) hsel o b hr
+  exact runChain_wellnested ops true [] (markAll s) hadm
+    ⟨by rw [unmark_markAll]; exact hs, fun _ => markAll_good hs, fun h => by simp at h, BufsOk.nil⟩
+    hsel o b hr
+
+/-- The buffers of `copy` / `cut` on a `Good` stream hold whole selections: balanced content,
+    safe to inject later. -/
+theorem buffers_balanced (acc : Bool) {s : MStream} (hg : Good s) (buf : List MEv) (hb : BalE buf) :
+    BalE (copyBuf acc .idle buf s) ∧ BalE (cutBuf acc .idle buf s) := by
+  refine ⟨(copyBuf_bal acc hg).1 buf hb, ?_⟩
+  rw [cutBuf_eq_copyBuf]; exact (copyBuf_bal acc hg).1 buf hb
+
+/-- before / after insert balanced content and nothing else: they keep EVERY marked stream
+    balanced the same way (no hypothesis on the marking). -/
+theorem before_after_any_stream (c : List MEv) (hc : Bal (evsOf c)) (s : MStream)
+    (hwn : WellNested (unmark s)) :
+    WellNested (unmark (before c s)) ∧ WellNested (unmark (after c s)) := by
+  have h1 : Bal (unmark (inj c)) := by rw [unmark_inj]; exact hc
+  constructor
+  · unfold WellNested before
+    rw [runGo_balance_any (post := []) h1 (show Bal (unmark []) from Bal.nil)]; exact hwn
+  · unfold WellNested after
+    rw [runGo_balance_any (pre := []) (show Bal (unmark []) from Bal.nil) h1]; exact hwn
 
 def qn (c : Char) : QName := ⟨[], [c]⟩
 
@@ -255,6 +284,18 @@ example : Admissible true [.select [.none, .hit, .none], .prepend (.str ['Z']), 
     some [.start (qn 'r') [], .start (qn 'w') [], .start (qn 'n') [], .text ['Z'] false, .text ['t'] false,
       .end_ (qn 'n'), .end_ (qn 'w'), .end_ (qn 'r')] := by
   refine ⟨by simp [Admissible, Op.OkGood, Op.next, Content.Ok], by decide, by decide⟩
+
+/-- non-vacuity: a chain that cuts a selection into a buffer and injects it elsewhere,
+    `Transformer('b').cut(buf).end().buffer().select('a').append(buf)` on `<r><a/><b/></r>` -/
+example :
+    Admissible true [.select [.none, .none, .hit, .none], .cut 0 false, .endSel, .buffer,
+      .select [.none, .hit, .none, .none], .append (.buf 0)] ∧
+    transform [.select [.none, .none, .hit, .none], .cut 0 false, .endSel, .buffer,
+      .select [.none, .hit, .none, .none], .append (.buf 0)]
+      [.start (qn 'r') [], .start (qn 'a') [], .end_ (qn 'a'), .start (qn 'b') [], .end_ (qn 'b'), .end_ (qn 'r')] =
+    some [.start (qn 'r') [], .start (qn 'a') [], .start (qn 'b') [], .end_ (qn 'b'), .end_ (qn 'a'),
+      .end_ (qn 'r')] := by
+  refine ⟨by simp [Admissible, Op.OkGood, Op.next, Content.Ok], by decide⟩
 
 /-- The documented precondition is needed: inverting a selection marks the gaps between
     selected elements, which cut through elements; wrapping them is ill nested.
@@ -364,6 +405,21 @@ theorem filler_fills_textarea_partial (c : Cfg) (st : St) (tag : QName) (v : Sca
     password input passes unchanged, in every state of the filter. -/
 theorem filler_no_passwords (c : Cfg) (a : AttrList) (hp : c.passwords = false)
     (ht : inputType a = sPassword) : inputAttrs c a = a := inputAttrs_password c a ht hp
+
+/-- Controls that are not named in the data are left alone: an input whose name has no entry
+    in the data (or that has no name) passes unchanged. -/
+theorem filler_unnamed_unchanged (c : Cfg) (a : AttrList)
+    (h : ∀ n, aget a sName = some n → c.lookup n = none) : inputAttrs c a = a := by
+  unfold inputAttrs
+  cases hn : aget a sName with
+  | none => simp
+  | some n =>
+    simp only [h n hn]
+    split
+    · split <;> rfl
+    · split
+      · split <;> rfl
+      · rfl
 
 /-- Known finding C20-option-children (negation of `optText`): child elements of an option are
     moved in front of it.  `<form><select name="s"><option><b>x</b>y</option></select></form>`
